@@ -2106,7 +2106,8 @@ class binary(base_quantizer.BaseQuantizer):  # pylint: disable=invalid-name
       x = tf_utils.smart_cond(
           K.learning_phase(),
           lambda: f * _round_through(
-              x / f, use_stochastic_rounding=True, precision=0.125),
+              tf.math.divide_no_nan(x, f), use_stochastic_rounding=True,
+              precision=0.125),
           lambda: x)
 
     k_sign = tf.sign(x)
